@@ -221,7 +221,8 @@ func VeneerTrailAsCommentsAction() RewriteAction {
 			return fmt.Sprintf("Modified by veneer '%s'", veneer)
 		})
 
-		opt.Comments = append(opt.Comments, veneerTrail...)
+		// options are copied by value: never append into an array another copy may share
+		opt.Comments = append(append([]string(nil), opt.Comments...), veneerTrail...)
 
 		return []ast.Option{opt}
 	}
@@ -673,7 +674,7 @@ func UnfoldBooleanAction(unfoldOpts BooleanUnfold) RewriteAction {
 		newOpts := []ast.Option{
 			{
 				Name:     unfoldOpts.OptionTrue,
-				Comments: option.Comments,
+				Comments: append([]string(nil), option.Comments...),
 				Assignments: []ast.Assignment{
 					ast.ConstantAssignment(option.Assignments[0].Path, true),
 				},
@@ -682,7 +683,7 @@ func UnfoldBooleanAction(unfoldOpts BooleanUnfold) RewriteAction {
 
 			{
 				Name:     unfoldOpts.OptionFalse,
-				Comments: option.Comments,
+				Comments: append([]string(nil), option.Comments...),
 				Assignments: []ast.Assignment{
 					ast.ConstantAssignment(option.Assignments[0].Path, false),
 				},
@@ -725,7 +726,8 @@ func AddAssignmentAction(assignment veneers.Assignment) RewriteAction {
 			return []ast.Option{option}
 		}
 
-		option.Assignments = append(option.Assignments, irAssignment)
+		// options are copied by value: never append into an array another copy may share
+		option.Assignments = append(append([]ast.Assignment(nil), option.Assignments...), irAssignment)
 		option.AddToVeneerTrail(fmt.Sprintf("AddAssignment[%s]", irAssignment.Path.String()))
 
 		return []ast.Option{option}
@@ -735,7 +737,8 @@ func AddAssignmentAction(assignment veneers.Assignment) RewriteAction {
 // AddCommentsAction adds comments to an option.
 func AddCommentsAction(comments []string) RewriteAction {
 	return func(_ ast.Schemas, builder ast.Builder, option ast.Option) []ast.Option {
-		option.Comments = append(option.Comments, comments...)
+		// options are copied by value: never append into an array another copy may share
+		option.Comments = append(append([]string(nil), option.Comments...), comments...)
 		option.AddToVeneerTrail(fmt.Sprintf("AddComments[%s]", strings.Join(comments, " ")))
 
 		return []ast.Option{option}
